@@ -56,21 +56,33 @@ def ctor_fields(facts, val):
     return out
 
 
-def interval_from_conds(path, value_pred):
-    """[lo, hi] implied by the path's comparisons `X >= c`, `X <= c` ... on values X satisfying value_pred."""
+def interval_from_conds(path, value_pred, facts=None, unknown=None):
+    """[lo, hi] implied by the path's comparisons `X >= c`, `X <= c`, `X in range(a, b)` ... on values X satisfying value_pred
+    (c a literal or a folded module-level constant).  Conditions that look at such a value in a form that is not read are
+    appended to `unknown` (the interval is then a lower bound of what the path knows, not the whole of it)."""
     lo, hi = None, None
-    for test, pol, _ in path.conds:
-        if test[0] != 'cmp':
-            continue
-        op, a, b = test[1], test[2], test[3]
-        if is_const(a) and not is_const(b):
-            a, b = b, a
-            op = {'<': '>', '>': '<', '<=': '>=', '>=': '<='}.get(op, op)
-        if not (is_const(b) and isinstance(b[1], int) and value_pred(a)):
-            continue
-        if not pol:
-            op = {'<': '>=', '>': '<=', '<=': '>', '>=': '<', '==': '!=', '!=': '=='}.get(op, op)
-        c = b[1]
+
+    def const(v):
+        if is_const(v) and isinstance(v[1], int) and not isinstance(v[1], bool):
+            return v[1]
+        if facts is not None and isinstance(v, tuple) and v and v[0] == 'name' and v[1] not in facts.poison and v[1] in facts.consts:
+            c = facts.consts[v[1]]
+            if isinstance(c, int) and not isinstance(c, bool):
+                return c
+        return None
+
+    def note(test):
+        if unknown is not None and find_all(test, value_pred_term):
+            unknown.append(test)
+
+    def value_pred_term(t):
+        try:
+            return bool(value_pred(t))
+        except Exception:
+            return False
+
+    def narrow(op, c):
+        nonlocal lo, hi
         if op == '>=':
             lo = c if lo is None else max(lo, c)
         elif op == '>':
@@ -81,6 +93,35 @@ def interval_from_conds(path, value_pred):
             hi = c - 1 if hi is None else min(hi, c - 1)
         elif op == '==':
             lo = hi = c
+        else:
+            return False
+        return True
+
+    for test, pol, _ in path.conds:
+        if not isinstance(test, tuple) or not test:
+            continue
+        if test[0] != 'cmp':
+            note(test)
+            continue
+        op, a, b = test[1], test[2], test[3]
+        if op in ('in', 'not in') and value_pred(a) and b[0] == 'call' and b[1] == 'range' and len(b[2]) == 2 and not b[3]:
+            r0, r1 = const(b[2][0]), const(b[2][1])
+            if r0 is not None and r1 is not None and (op == 'in') == bool(pol):
+                narrow('>=', r0)
+                narrow('<', r1)
+                continue
+            note(test)
+            continue
+        if const(a) is not None and const(b) is None:
+            a, b = b, a
+            op = {'<': '>', '>': '<', '<=': '>=', '>=': '<='}.get(op, op)
+        if not (const(b) is not None and value_pred(a)):
+            note(test)
+            continue
+        if not pol:
+            op = {'<': '>=', '>': '<=', '<=': '>', '>=': '<', '==': '!=', '!=': '=='}.get(op, op)
+        if not narrow(op, const(b)) and op != '!=':
+            note(test)
     return lo, hi
 
 
@@ -88,6 +129,14 @@ def accepted_interval(facts, mnemonic, param='imm'):
     s = all_summaries(facts).get(mnemonic)
     if s is None:
         return None
+    if param not in s.params:
+        # the operand is named by its ISA role, not by what the encoder calls its parameter
+        from .encsum import oracle_spec
+        spec = oracle_spec(mnemonic)
+        if spec is not None and len(spec['operands']) == len(s.params):
+            named = [p for p, op in zip(s.params, spec['operands']) if op['kind'] == 'imm' and op['role'] == param]
+            if len(named) == 1:
+                param = named[0]
     info = derived_operand(s, param)
     if info is None:
         return None
@@ -126,7 +175,8 @@ def check_lo_pairing(report, facts, rule_lo, rule_fits, rule_pair):
             if imm[0] == 'new' and imm[1] == 'Lo':
                 n_lo += 1
                 e = imm[2][0]
-                lo, hi = interval_from_conds(path, lambda x: is_eval_of(x, e))
+                unread = []
+                lo, hi = interval_from_conds(path, lambda x: is_eval_of(x, e), facts, unread)
                 fits12 = lo is not None and hi is not None and lo >= -2048 and hi <= 2047
                 paired = False
                 if idx > 0:
@@ -134,7 +184,17 @@ def check_lo_pairing(report, facts, rule_lo, rule_fits, rule_pair):
                     pimm = prev.get('imm')
                     if pimm is not None and pimm[0] == 'new' and pimm[1] == 'Hi' and pimm[2][0] == e:
                         # register chaining: the upper half is written to the register the lower half is added to
-                        if prev.get('rd') == fields.get('rs1'):
+                        def regnum(v):
+                            """architectural number of a constant register spelling ('ra' and 'x1' are the same register)"""
+                            if is_const(v):
+                                for tname in ('REGISTERS',):
+                                    if tname not in facts.poison and tname in facts.tables:
+                                        try:
+                                            return facts.tables[tname].get(v[1], v)
+                                        except TypeError:
+                                            return v
+                            return v
+                        if prev.get('rd') == fields.get('rs1') or regnum(prev.get('rd')) == regnum(fields.get('rs1')):
                             paired = True
                         else:
                             report.fail(Finding(rule_pair, 'transform_pseudo_instructions', node,
@@ -145,6 +205,9 @@ def check_lo_pairing(report, facts, rule_lo, rule_fits, rule_pair):
                     report.ok(rule_lo, inst_desc + ': guarded to 12 signed bits, %lo is the identity')
                 elif paired:
                     report.ok(rule_pair, inst_desc + ': %lo paired with %hi of the same expression, registers chained')
+                elif unread:
+                    raise AnalysisError('R-lo-width: {} receives %lo(e) under a condition on e that is not read as an interval ({}): whether '
+                                        'e fits 12 signed bits on this path is not decided'.format(mn, show(unread[0])[:80]))
                 else:
                     report.fail(Finding(rule_lo, 'transform_pseudo_instructions', node,
                                         '{} receives %lo(e), i.e. only the low 12 bits of e, but on this path e is only known to lie in [{}, {}] '
@@ -160,10 +223,17 @@ def check_lo_pairing(report, facts, rule_lo, rule_fits, rule_pair):
                                                        'a %hi half is emitted without the %lo half of the same expression right after it', line=node.lineno))
             else:
                 # plain expression under an interval guard: the guard must fit the consumer
-                lo, hi = interval_from_conds(path, lambda x: is_eval_of(x, imm))
+                unread = []
+                lo, hi = interval_from_conds(path, lambda x: is_eval_of(x, imm), facts, unread)
+                if (lo is None or hi is None) and unread:
+                    raise AnalysisError('R-guard-fits: the immediate of {} is guarded by a condition that is not read as an interval ({})'.format(
+                        mn, show(unread[0])[:80]))
                 if lo is not None or hi is not None:
                     acc = accepted_interval(facts, mn)
-                    ok = acc is not None and lo is not None and hi is not None and lo >= acc[0] and hi <= acc[1] + 1
+                    if acc is None:
+                        raise AnalysisError('R-guard-fits: the accepted range of the immediate of {} is not derived (no summary / no operand '
+                                            'named imm): whether the guard [{}, {}] fits is not decided'.format(mn, lo, hi))
+                    ok = lo is not None and hi is not None and lo >= acc[0] and hi <= acc[1] + 1
                     report.check(ok, rule_fits, inst_desc + ': guard [{}, {}] within the range of {}'.format(lo, hi, mn),
                                  lambda node=node, lo=lo, hi=hi, acc=acc, mn=mn: Finding(rule_fits, 'transform_pseudo_instructions', node,
                                                                                        'the value is guarded to [{}, {}] but {} accepts only {}'.format(lo, hi, mn, acc), line=node.lineno))
@@ -452,6 +522,16 @@ def check_auipc(report, facts, rule_adj, rule_sib):
     sites = [s for s in all_sites if s.recv[0] == 'attr' and s.recv[2] == 'imm']
     wr = wrappers(facts, sites)
     wcalls = wrapper_call_sites(facts, wr)
+    # the -4 ("relative to the auipc in front") belongs to the jalr half of an auipc pair and to nothing else: a displacement of the
+    # evaluation point on a path that does not know the item carries is_auipc_jump moves every ordinary %lo(%offset(L)) operand
+    for wname, w in sorted(wr.items()):
+        for flag, k, post, s in w['cases']:
+            if k and flag is not True:
+                report.fail(Finding(rule_adj, wname, s.node,
+                                    'the evaluation point is moved by {:+d} on a path that is not restricted to is_auipc_jump items ({}): an ordinary instruction whose operand has '
+                                    'that shape (addi t0, t0, %lo(%offset(L)) after a hand-written auipc, or anywhere else) is evaluated {} bytes off'.format(
+                                        k, s.path.cond_text()[-80:] or 'unconditionally', abs(k)), line=s.node.lineno),
+                            instance='{}: displacement only for flagged items'.format(wname))
     report.count('item-immediate evaluation sites', len({(s.fn, s.node.lineno) for s in sites}) + len({(c['fn'], c['node'].lineno) for c in wcalls}))
     pa = LR.pass_analysis(facts, 'transform_pseudo_instructions')
     nonlinear = False
